@@ -38,4 +38,4 @@ def run(ctx):
         rule="theorems of coq/Props/C15.v (unbounded) + comment-sequence oracle and correspondence on every .vcl file of "
              "the repository (as is, and decorated) x default + every single-option flip, focus programs, grammar-generated "
              "programs decorated at random subsets of the documented placeholders x sampled configurations; "
-             "1-3 comments per placeholder in mixed styles and positions (previous line / own line / same line, empty lines around), exhaustively every placeholder x 10 patterns; distinct = distinct (source, configuration); per-dimension counts in coverage.dimensions")
+             "1-3 comments per placeholder in mixed styles and positions (previous line / own line / same line, empty lines around), exhaustively every placeholder x 10 patterns; SCALE (gen/fmt_scale: one token / output line of 4 KiB, 64 KiB - 1, 64 KiB, 64 KiB + 1, 200 KiB as quoted / long / multi-line string, comment, identifier; conditions, concatenations and argument lists with 300 operands; 300 statements, else-if branches, cases, properties, entries, declarations; nesting 60 - always next to runs of empty lines); COMMENT TEXT (gen/decorate hostile alphabet, 22 line + 22 block classes: multi-line blocks with / without stars, indented, trailing blanks, empty lines; line comments containing or ending in /* */ // # \\\\; code; empty; > 4 KiB; tabs; multi-byte - every placeholder x one class of each family, every condition / branch placeholder of a compound-condition template x every class, own line and line of the previous token); distinct = distinct (source, configuration); per-dimension counts in coverage.dimensions")
